@@ -134,4 +134,10 @@ PROPS = {
         'assumptions': COMMON_ASSUMPTIONS + ["keys are told apart by their index hash (every conflict hash 0): with colliding keys the statement is false (known finding D9, machine-checked witness C08_collision_refuted)", "no remove reported an error (a Delete lost to a full insert buffer)", "a get_mut write replaces the value in place: the overwritten value is dropped by the assignment, not by the cache (counted under 'lost', like the values clear() drops)"],
         'partial': "",
     },
+    'C04': {
+        'suites': [('cacheq', 400, 4000, ''), ('cacheqb', 300, 3000, ''), ('cachepair', 100, 1000, '')],
+        'rule': CACHE_RULE % "Cache and AsyncCache" + "suites cacheq / cacheqb (sync; either flavour): max_cost 100000 so that the total cost always fits, insert buffer 64, every operation run to quiescence; inserts with TTLs {1 ns .. 1 h} and without, re-inserts switching TTL <-> none, removes, clears, lookups, get_ttl, clock advances landing on and around second boundaries, ticks at irregular times, key re-use after clear; the harness runs an oracle map with TTLs in lockstep (monitor: every lookup and every get_ttl must equal the oracle's answer, on_evict for unexpired entries and on_reject must never fire), and the expiry buckets, charges and store are compared with the model after every segment",
+        'assumptions': COMMON_ASSUMPTIONS + ["quiescence between operations (the property's own quantifier: 'at quiescent points'); with concurrent clients a Delete queued by a remove() that overlaps a later insert of the same key can take that insert out (the item protocol orders effects by buffer position, see DESIGN.md)", "fewer than num_to_keep = 100000 tracked keys when metrics are on"],
+        'partial': "the refinement to a map with TTLs is proved operation by operation (insert of a new key, re-insert, remove, lookup, each from an arbitrary quiescent state to the next, plus retention / no-eviction / sweep-only-expired for every step); the induction over a whole history and the tick's end-to-end lemma (it iterates a hash map in an order reported by the implementation) are carried by the oracle monitor and the correspondence, not by one theorem",
+    },
 }
